@@ -30,6 +30,9 @@ pub struct Fr {
     /// a complete delivery with `resume = true` and a delivery-tag of its own, sent while another delivery of
     /// the same link is under way (not something a conforming sender does; `on_resuming_transfer` has an arm for it)
     pub lone: bool,
+    /// the transfer carries the state `received` (section-number, section-offset): the sender rewinds the delivery
+    /// to that point and goes on from there
+    pub rewind: Option<(u32, u64)>,
 }
 
 impl Fr {
@@ -92,11 +95,11 @@ fn gen_case(rng: &mut Rng) -> Case {
             if lone_at == Some(k) {
                 let m2 = message_bytes(rng.next(), *rng.pick(&[0usize, 3, 40]));
                 next_id = next_id.wrapping_add(1);
-                frames.push(Fr { id: Some(id.wrapping_add(1)), tag: Some(vec![0xee, d as u8]), fmt: Some(0), settled: None, more: false, aborted: false, payload: m2, other_link: false, resume: true, lone: true });
+                frames.push(Fr { id: Some(id.wrapping_add(1)), tag: Some(vec![0xee, d as u8]), fmt: Some(0), settled: None, more: false, aborted: false, payload: m2, other_link: false, resume: true, lone: true, rewind: None });
             }
             if intruder_at == Some(k) {
                 let junk: Vec<u8> = if rng.chance(1, 2) { msg[..prev.min(msg.len())].to_vec() } else { (0..1 + rng.below(12)).map(|_| rng.next() as u8).collect() };
-                frames.push(Fr { id: Some(id.wrapping_add(77)), tag: None, fmt: None, settled: None, more: true, aborted: false, payload: junk, other_link: false, resume: false, lone: false });
+                frames.push(Fr { id: Some(id.wrapping_add(77)), tag: None, fmt: None, settled: None, more: true, aborted: false, payload: junk, other_link: false, resume: false, lone: false, rewind: None });
             }
             let end = if k + 1 == n_frames { msg.len() } else { cuts[k] };
             let payload = msg[prev..end].to_vec();
@@ -113,6 +116,7 @@ fn gen_case(rng: &mut Rng) -> Case {
                 other_link: false,
                 resume: resumed && (k + 1 == n_frames || rng.chance(1, 2)),
                 lone: false,
+                rewind: None,
             };
             if abort_at == Some(k) {
                 // the abort frame: its `more` flag and its payload mean nothing
@@ -131,7 +135,7 @@ fn gen_case(rng: &mut Rng) -> Case {
             // a complete single-frame delivery of another link in between
             if rng.chance(1, 4) {
                 let m2 = message_bytes(rng.next(), 3);
-                frames.push(Fr { id: Some(other_id), tag: Some(other_id.to_be_bytes().to_vec()), fmt: Some(0), settled: Some(true), more: false, aborted: false, payload: m2, other_link: true, resume: false, lone: false });
+                frames.push(Fr { id: Some(other_id), tag: Some(other_id.to_be_bytes().to_vec()), fmt: Some(0), settled: Some(true), more: false, aborted: false, payload: m2, other_link: true, resume: false, lone: false, rewind: None });
                 other_id += 1;
             }
             if contradict_at == Some(k) {
@@ -174,6 +178,9 @@ fn run_impl(case: &Case) -> Result<Vec<String>, String> {
             t.message_format = f.fmt;
             t.aborted = f.aborted;
             t.resume = f.resume;
+            if let Some((n, o)) = f.rewind {
+                t.state = Some(fe2o3_amqp_types::messaging::DeliveryState::Received(fe2o3_amqp_types::messaging::Received { section_number: n, section_offset: o }));
+            }
             peer.send(0, Performative::Transfer(t), &f.payload).await.map_err(|e| format!("{:?}", e))?;
             if f.other_link {
                 other_sent += 1;
@@ -276,6 +283,11 @@ fn check_property(case: &Case, seen: &[String]) -> Option<(String, String)> {
                     continue;
                 }
                 contradiction = true;
+            }
+        }
+        if let Some((n, o)) = f.rewind {
+            if let Some(p) = ref_position(&acc, n, o) {
+                acc.truncate(p);
             }
         }
         acc.extend_from_slice(&f.payload);
@@ -507,6 +519,141 @@ pub fn main(opts: &Opts) {
             }
         }
     }
+    // a delivery that is rewound by its sender (`received` on a continuation transfer that repeats the tag) and
+    // sent again from that point, through a real Receiver
+    if opts.property != "C18" {
+        for (cuts, k, resend_frames) in [(vec![12usize, 24], 5usize, 1usize), (vec![10, 20, 30], 15, 2), (vec![40], 3, 1), (vec![4, 8, 12, 16], 10, 3), (vec![30, 60], 57, 1)] {
+            let msg = message_bytes(k as u64 + 5, 70);
+            let tag = vec![7u8, 7];
+            let mut frames = vec![];
+            let mut prev = 0;
+            for (i, c) in cuts.iter().enumerate() {
+                frames.push(Fr { id: if i == 0 { Some(0) } else { None }, tag: if i == 0 { Some(tag.clone()) } else { None }, fmt: if i == 0 { Some(0) } else { None }, settled: None, more: true, aborted: false, payload: msg[prev..*c].to_vec(), other_link: false, resume: false, lone: false, rewind: None });
+                prev = *c;
+            }
+            // the message opens with a section header: section 1 offset k is octet k
+            let rest = &msg[k..];
+            let piece = rest.len().div_ceil(resend_frames);
+            for (i, p) in rest.chunks(piece).enumerate() {
+                let last = (i + 1) * piece >= rest.len();
+                frames.push(Fr { id: None, tag: Some(tag.clone()), fmt: None, settled: None, more: !last, aborted: false, payload: p.to_vec(), other_link: false, resume: false, lone: false, rewind: if i == 0 { Some((1, k as u64)) } else { None } });
+            }
+            let case = Case { frames };
+            report.evaluations += 1;
+            report.count("rewound_deliveries");
+            report.nontrivial_case(fnv(&format!("rewound{:?}{}{}", cuts, k, resend_frames)));
+            match run_impl(&case) {
+                Ok(seen) => {
+                    if let Some((key, desc)) = check_property(&case, &seen) {
+                        report.finding(Finding { kind: "violation", key: format!("rewound-delivery:{}", key), description: format!("a delivery received in pieces ending at {:?}, rewound to octet {} (received: section 1, offset {}) and sent again from there in {} frame(s): {}", cuts, k, k, resend_frames, desc), replay: json!({"property": "C10", "module": "reasm", "rewound": {"cuts": cuts, "k": k, "resend_frames": resend_frames}, "frames": case.frames.iter().map(|f| f.to_json()).collect::<Vec<_>>(), "seen": seen}) });
+                    }
+                }
+                Err(e) => report.finding(Finding { kind: "violation", key: "rewound-delivery-scenario-failed".into(), description: e, replay: json!({"property": "C10", "module": "reasm", "rewound": {"cuts": cuts, "k": k}}) }),
+            }
+        }
+    }
+    if opts.property != "C18" {
+        let n_keep = if opts.thorough() { 20000 } else { 2000 };
+        keep_cases(&mut report, &mut rng, n_keep, opts.seed);
+    }
     report.write(&opts.report);
     println!("reasm: {} cases, {} non-trivial, {} findings", report.evaluations, report.nontrivial.len(), report.findings.len());
+}
+
+/// `position_of_section_number_and_offset` written again (used to draw rewind points that exist)
+fn ref_position(flat: &[u8], n: u32, o: u64) -> Option<usize> {
+    let is_header = |b0: u8, b1: u8, b2: u8| b0 == 0 && (b1 == 0x53 || b1 == 0x80) && (0x70..=0x78).contains(&b2);
+    let (mut cn, mut co) = (0u32, 0u64);
+    for i in 0..flat.len().saturating_sub(2) {
+        co += 1;
+        if is_header(flat[i], flat[i + 1], flat[i + 2]) {
+            cn += 1;
+            co = 0;
+        }
+        if cn == n && co == o {
+            return Some(i);
+        }
+    }
+    None
+}
+
+/// Rewinding a delivery under way (`received` on a continuation transfer): the chunks kept by
+/// `IncompleteTransfer::keep_buffer_till_section_number_and_offset`, judged on their own (what is kept is the
+/// bytes before the position, nothing else) and compared with the model
+pub fn keep_cases(report: &mut Report, rng: &mut Rng, n_cases: usize, seed: u64) {
+    let mut lines = vec![];
+    let mut got_all = vec![];
+    for k in 0..n_cases {
+        report.evaluations += 1;
+        let msg = if rng.chance(1, 5) {
+            // several sections
+            let mut m = vec![0x00, 0x53, 0x70, 0x45, 0x00, 0x53, 0x73, 0x45];
+            m.extend(message_bytes(rng.next(), *rng.pick(&[0usize, 3, 20])));
+            m
+        } else {
+            message_bytes(rng.next(), *rng.pick(&[0usize, 1, 8, 30, 90]))
+        };
+        let n_chunks = rng.range(1, 5) as usize;
+        let mut cuts: Vec<usize> = (0..n_chunks - 1).map(|_| rng.below(msg.len() as u64 + 1) as usize).collect();
+        cuts.sort();
+        let mut chunks: Vec<Vec<u8>> = vec![];
+        let mut prev = 0;
+        for c in cuts.iter().chain(std::iter::once(&msg.len())) {
+            chunks.push(msg[prev..*c].to_vec());
+            prev = *c;
+        }
+        // a rewind point that exists (mostly), or any
+        let (sn, so) = if rng.chance(3, 4) && msg.len() > 3 {
+            let target = rng.below(msg.len() as u64 - 2) as usize;
+            // the (number, offset) the counting arrives at on byte `target`
+            let is_header = |b0: u8, b1: u8, b2: u8| b0 == 0 && (b1 == 0x53 || b1 == 0x80) && (0x70..=0x78).contains(&b2);
+            let (mut cn, mut co) = (0u32, 0u64);
+            for i in 0..=target {
+                co += 1;
+                if is_header(msg[i], msg[i + 1], msg[i + 2]) {
+                    cn += 1;
+                    co = 0;
+                }
+            }
+            (cn, co)
+        } else {
+            (rng.below(4) as u32, rng.below(40))
+        };
+        let kept = fe2o3_amqp::verif::keep_buffer_till(chunks.iter().map(|c| bytes::Bytes::from(c.clone())).collect(), sn, so);
+        let flat_kept: Vec<u8> = kept.concat();
+        let pos = ref_position(&msg, sn, so);
+        report.count(if pos.is_some() { "rewind_points_that_exist" } else { "rewind_points_that_do_not_exist" });
+        if chunks.len() > 1 && pos.is_some() {
+            report.nontrivial_case(fnv(&format!("keep{}{}{}{:?}", hex(&msg), sn, so, cuts)));
+        }
+        let want: &[u8] = match pos {
+            Some(p) => &msg[..p],
+            None => &msg[..],
+        };
+        if flat_kept != want {
+            report.finding(Finding { kind: "violation", key: "rewind-keeps-bytes-beyond-the-point".into(), description: format!("a delivery under way holds {} chunks of {:?} octets; rewound to section {} offset {} (octet {:?} of the delivery) it keeps {} octets in chunks of {:?} instead of the {} octets before the point", chunks.len(), chunks.iter().map(|c| c.len()).collect::<Vec<_>>(), sn, so, pos, flat_kept.len(), kept.iter().map(|c| c.len()).collect::<Vec<_>>(), want.len()), replay: json!({"property": "C10", "module": "reasm", "seed": seed, "keep_case": k, "chunks": chunks.iter().map(|c| hex(c)).collect::<Vec<_>>(), "section_number": sn, "section_offset": so}) });
+        }
+        let h = |c: &Vec<u8>| if c.is_empty() { "-".to_string() } else { hex(c) };
+        lines.push(format!("M keep {} {} {}", sn, so, chunks.iter().map(h).collect::<Vec<_>>().join(" ")));
+        got_all.push(kept.iter().map(h).collect::<Vec<_>>().join(" "));
+    }
+    if driver_available() {
+        match run_driver(&lines) {
+            Ok(model) => {
+                report.model_lines += model.len() as u64;
+                let mut bad = 0u64;
+                for i in 0..model.len().min(got_all.len()) {
+                    if model[i] != got_all[i] {
+                        if bad == 0 {
+                            report.finding(Finding { kind: "disagreement", key: "keep-model-vs-implementation".into(), description: format!("{} -> implementation [{}] model [{}]", lines[i], got_all[i], model[i]), replay: json!({"property": "C10", "module": "reasm", "seed": seed, "line": lines[i], "implementation": got_all[i], "model": model[i]}) });
+                        }
+                        bad += 1;
+                    }
+                }
+                report.count_n("keep_lines_compared", model.len() as u64);
+                report.count_n("keep_lines_disagreeing_with_model", bad);
+            }
+            Err(e) => report.notes.push(format!("model driver failed on the keep lines: {}", e)),
+        }
+    }
 }
